@@ -216,6 +216,12 @@ where
     }
 
     fn take_error(&mut self, ours: Reason, initiator: Initiator) -> Result<(), Error> {
+        #[cfg(feature = "verif-hooks")]
+        crate::verif::ev("conn.take_error", || {
+            let mut v = vec![u32::from(ours) as i64, verif_initiator(initiator)];
+            v.extend(verif_error(&self.inner.error));
+            v
+        });
         let (debug_data, theirs) = self
             .inner
             .error
@@ -242,6 +248,8 @@ where
         // If we poll() and realize that there are no streams or references
         // then we can close the connection by transitioning to GOAWAY
         if !self.inner.streams.has_streams_or_other_references() {
+            #[cfg(feature = "verif-hooks")]
+            crate::verif::ev("conn.maybe_close", Vec::new);
             self.inner.as_dyn().go_away_now(Reason::NO_ERROR);
         }
     }
@@ -264,6 +272,8 @@ where
 
     /// Advances the internal state of the connection.
     pub fn poll(&mut self, cx: &mut Context) -> Poll<Result<(), Error>> {
+        #[cfg(feature = "verif-hooks")]
+        crate::verif::ev("conn.poll", || verif_state(&self.inner.state));
         // XXX(eliza): cloning the span is unfortunately necessary here in
         // order to placate the borrow checker — `self` is mutably borrowed by
         // `poll2`, which means that we can't borrow `self.span` to enter it.
@@ -275,6 +285,8 @@ where
 
         loop {
             tracing::trace!(connection.state = ?self.inner.state);
+            #[cfg(feature = "verif-hooks")]
+            crate::verif::ev("conn.loop", || verif_state(&self.inner.state));
             // TODO: probably clean up this glob of code
             match self.inner.state {
                 // When open, continue to poll a frame
@@ -287,6 +299,14 @@ where
                             //
                             // This will also handle flushing `self.codec`
                             ready!(self.inner.streams.poll_complete(cx, &mut self.codec))?;
+                            #[cfg(feature = "verif-hooks")]
+                            crate::verif::ev("conn.idle", || {
+                                vec![
+                                    self.inner.error.is_some() as i64,
+                                    self.inner.go_away.should_close_on_idle() as i64,
+                                    self.inner.streams.has_streams() as i64,
+                                ]
+                            });
 
                             if (self.inner.error.is_some()
                                 || self.inner.go_away.should_close_on_idle())
@@ -306,6 +326,8 @@ where
                     tracing::trace!("connection closing after flush");
                     // Flush/shutdown the codec
                     ready!(self.codec.shutdown(cx))?;
+                    #[cfg(feature = "verif-hooks")]
+                    crate::verif::ev("conn.shutdown_ready", Vec::new);
 
                     // Transition the state to error
                     self.inner.state = State::Closed(reason, initiator);
@@ -324,6 +346,13 @@ where
         self.clear_expired_reset_streams();
 
         loop {
+            #[cfg(feature = "verif-hooks")]
+            crate::verif::ev("conn.iter", || {
+                let mut v = verif_ids(&self.inner.streams.verif_snapshot());
+                v.extend(verif_error(&self.inner.error));
+                v.truncate(6);
+                v
+            });
             // First, ensure that the `Connection` is able to receive a frame
             //
             // The order here matters:
@@ -347,6 +376,10 @@ where
                 );
             }
             ready!(self.poll_ready(cx))?;
+            #[cfg(feature = "verif-hooks")]
+            crate::verif::ev("conn.pre_recv", || {
+                verif_ids(&self.inner.streams.verif_snapshot())
+            });
 
             match self
                 .inner
@@ -403,6 +436,10 @@ where
     B: Buf,
 {
     fn go_away(&mut self, id: StreamId, e: Reason) {
+        #[cfg(feature = "verif-hooks")]
+        crate::verif::ev("conn.go_away", || {
+            vec![u32::from(id) as i64, u32::from(e) as i64]
+        });
         let frame = frame::GoAway::new(id, e);
         self.streams.send_go_away(id);
         self.go_away.go_away(frame);
@@ -410,18 +447,32 @@ where
 
     fn go_away_now(&mut self, e: Reason) {
         let last_processed_id = self.streams.last_processed_id();
+        #[cfg(feature = "verif-hooks")]
+        crate::verif::ev("conn.go_away_now", || {
+            vec![u32::from(e) as i64, u32::from(last_processed_id) as i64]
+        });
         let frame = frame::GoAway::new(last_processed_id, e);
         self.go_away.go_away_now(frame);
     }
 
     fn go_away_now_data(&mut self, e: Reason, data: Bytes) {
         let last_processed_id = self.streams.last_processed_id();
+        #[cfg(feature = "verif-hooks")]
+        crate::verif::ev("conn.go_away_now_data", || {
+            let mut v = vec![u32::from(e) as i64, u32::from(last_processed_id) as i64];
+            v.extend(data.iter().map(|b| *b as i64));
+            v
+        });
         let frame = frame::GoAway::with_debug_data(last_processed_id, e, data);
         self.go_away.go_away_now(frame);
     }
 
     fn go_away_from_user(&mut self, e: Reason) {
         let last_processed_id = self.streams.last_processed_id();
+        #[cfg(feature = "verif-hooks")]
+        crate::verif::ev("conn.go_away_from_user", || {
+            vec![u32::from(e) as i64, u32::from(last_processed_id) as i64]
+        });
         let frame = frame::GoAway::new(last_processed_id, e);
         self.go_away.go_away_from_user(frame);
 
@@ -430,6 +481,12 @@ where
     }
 
     fn handle_poll2_result(&mut self, result: Result<(), Error>) -> Result<(), Error> {
+        #[cfg(feature = "verif-hooks")]
+        let _verif = crate::verif::enter("conn.poll2_result", || {
+            let mut v = vec![u32::from(self.streams.last_processed_id()) as i64];
+            v.extend(verif_result(&result));
+            v
+        });
         match result {
             // The connection has shutdown normally
             Ok(()) => {
@@ -463,6 +520,12 @@ where
                 match self.streams.send_reset(id, reason) {
                     Ok(()) => (),
                     Err(crate::proto::error::GoAway { debug_data, reason }) => {
+                        #[cfg(feature = "verif-hooks")]
+                        crate::verif::ev("conn.reset_goaway", || {
+                            let mut v = vec![u32::from(reason) as i64];
+                            v.extend(debug_data.iter().map(|b| *b as i64));
+                            v
+                        });
                         self.handle_go_away(reason, debug_data, Initiator::Library);
                     }
                 }
@@ -479,6 +542,16 @@ where
                 // Reset all active streams
                 self.streams.handle_error(e.clone());
 
+                #[cfg(feature = "verif-hooks")]
+                crate::verif::ev("conn.io", || {
+                    vec![
+                        self.streams.is_buffer_empty() as i64,
+                        matches!(kind, io::ErrorKind::UnexpectedEof) as i64,
+                        self.streams.is_server() as i64,
+                        (self.error.as_ref().map(|f| f.reason() == Reason::NO_ERROR) == Some(true))
+                            as i64,
+                    ]
+                });
                 // Some client implementations drop the connections without notifying its peer
                 // Attempting to read after the client dropped the connection results in UnexpectedEof
                 // If as a server, we don't have anything more to send, just close the connection
@@ -491,6 +564,8 @@ where
                         || self.error.as_ref().map(|f| f.reason() == Reason::NO_ERROR)
                             == Some(true))
                 {
+                    #[cfg(feature = "verif-hooks")]
+                    crate::verif::ev("conn.io_closed", Vec::new);
                     *self.state = State::Closed(Reason::NO_ERROR, Initiator::Library);
                     return Ok(());
                 }
@@ -502,6 +577,12 @@ where
     }
 
     fn handle_go_away(&mut self, reason: Reason, debug_data: Bytes, initiator: Initiator) {
+        #[cfg(feature = "verif-hooks")]
+        crate::verif::ev("conn.handle_go_away", || {
+            let mut v = vec![u32::from(reason) as i64, verif_initiator(initiator)];
+            v.extend(debug_data.iter().map(|b| *b as i64));
+            v
+        });
         let e = Error::GoAway(debug_data.clone(), reason, initiator);
         tracing::debug!(error = ?e, "Connection::poll; connection error");
 
@@ -512,6 +593,8 @@ where
             .going_away()
             .map_or(false, |frame| frame.reason() == reason)
         {
+            #[cfg(feature = "verif-hooks")]
+            crate::verif::ev("conn.already_going_away", Vec::new);
             tracing::trace!("    -> already going away");
             *self.state = State::Closing(reason, initiator);
             return;
@@ -523,11 +606,21 @@ where
     }
 
     fn recv_frame(&mut self, frame: Option<Frame>) -> Result<ReceivedFrame, Error> {
+        #[cfg(feature = "verif-hooks")]
+        let _verif = crate::verif::enter("conn.recv_frame", || {
+            let mut v = vec![u32::from(self.streams.last_processed_id()) as i64];
+            v.extend(verif_frame(&frame));
+            v
+        });
         use crate::frame::Frame::*;
         match frame {
             Some(Headers(frame)) => {
                 tracing::trace!(?frame, "recv HEADERS");
                 self.streams.recv_headers(frame)?;
+                #[cfg(feature = "verif-hooks")]
+                crate::verif::ev("conn.headers_done", || {
+                    vec![u32::from(self.streams.last_processed_id()) as i64]
+                });
             }
             Some(Data(frame)) => {
                 tracing::trace!(?frame, "recv DATA");
@@ -612,6 +705,10 @@ where
 
     // Graceful shutdown only makes sense for server peers.
     pub fn go_away_gracefully(&mut self) {
+        #[cfg(feature = "verif-hooks")]
+        crate::verif::ev("conn.graceful", || {
+            vec![self.inner.go_away.is_going_away() as i64]
+        });
         if self.inner.go_away.is_going_away() {
             // No reason to start a new one.
             return;
@@ -657,5 +754,105 @@ where
     /// Read-only statistics snapshot (verification hook).
     pub(crate) fn verif_snapshot(&self) -> crate::verif::Snapshot {
         self.inner.streams.verif_snapshot()
+    }
+}
+
+// ===== verification hooks (feature `verif-hooks`, off by default; add-only) =====
+
+#[cfg(feature = "verif-hooks")]
+fn verif_initiator(i: Initiator) -> i64 {
+    match i {
+        Initiator::User => 0,
+        Initiator::Library => 1,
+        Initiator::Remote => 2,
+    }
+}
+
+#[cfg(feature = "verif-hooks")]
+fn verif_state(s: &State) -> Vec<i64> {
+    match s {
+        State::Open => vec![0, 0, 0],
+        State::Closing(r, i) => vec![1, u32::from(*r) as i64, verif_initiator(*i)],
+        State::Closed(r, i) => vec![2, u32::from(*r) as i64, verif_initiator(*i)],
+    }
+}
+
+/// error?, last, reason, debug...
+#[cfg(feature = "verif-hooks")]
+fn verif_error(e: &Option<frame::GoAway>) -> Vec<i64> {
+    match e {
+        None => vec![0, -1, -1],
+        Some(f) => {
+            let mut v = vec![
+                1,
+                u32::from(f.last_stream_id()) as i64,
+                u32::from(f.reason()) as i64,
+            ];
+            v.extend(f.debug_data().iter().map(|b| *b as i64));
+            v
+        }
+    }
+}
+
+/// last_processed_id, recv max_stream_id, send max_stream_id
+#[cfg(feature = "verif-hooks")]
+fn verif_ids(s: &crate::verif::Snapshot) -> Vec<i64> {
+    let get = |k: &str| {
+        s.conn
+            .iter()
+            .find(|(n, _)| *n == k)
+            .map(|(_, v)| *v)
+            .unwrap_or(-1)
+    };
+    vec![
+        get("recv_last_processed_id"),
+        get("recv_max_stream_id"),
+        get("send_max_stream_id"),
+    ]
+}
+
+#[cfg(feature = "verif-hooks")]
+fn verif_frame<B>(f: &Option<Frame<B>>) -> Vec<i64> {
+    match f {
+        None => vec![0],
+        Some(Frame::Headers(h)) => vec![1, u32::from(h.stream_id()) as i64],
+        Some(Frame::Data(..)) => vec![2],
+        Some(Frame::Reset(..)) => vec![3],
+        Some(Frame::PushPromise(..)) => vec![4],
+        Some(Frame::Settings(..)) => vec![5],
+        Some(Frame::GoAway(g)) => {
+            let mut v = vec![
+                6,
+                u32::from(g.last_stream_id()) as i64,
+                u32::from(g.reason()) as i64,
+            ];
+            v.extend(g.debug_data().iter().map(|b| *b as i64));
+            v
+        }
+        Some(Frame::Ping(..)) => vec![7],
+        Some(Frame::WindowUpdate(..)) => vec![8],
+        Some(Frame::Priority(..)) => vec![9],
+    }
+}
+
+/// kind (0 Ok, 1 GoAway, 2 Reset, 3 Io), reason, initiator, stream id / is_unexpected_eof, debug...
+#[cfg(feature = "verif-hooks")]
+fn verif_result(r: &Result<(), Error>) -> Vec<i64> {
+    match r {
+        Ok(()) => vec![0, 0, 0, 0],
+        Err(Error::GoAway(d, reason, i)) => {
+            let mut v = vec![1, u32::from(*reason) as i64, verif_initiator(*i), 0];
+            v.extend(d.iter().map(|b| *b as i64));
+            v
+        }
+        Err(Error::Reset(id, reason, i)) => vec![
+            2,
+            u32::from(*reason) as i64,
+            verif_initiator(*i),
+            u32::from(*id) as i64,
+        ],
+        Err(Error::Io(kind, _)) => {
+            vec![3, 0, 0, matches!(kind, io::ErrorKind::UnexpectedEof) as i64]
+        }
     }
 }
